@@ -4,13 +4,16 @@
 //!   vprops list
 mod util;
 mod c02;
+mod c03;
+mod c04;
+mod c05;
 
 use serde_json::{Value, json};
 use std::time::Instant;
 use util::*;
 
 fn props() -> Vec<PropDef> {
-    vec![c02::DEF]
+    vec![c02::DEF, c03::DEF, c04::DEF, c05::DEF]
 }
 
 fn arg(args: &[String], name: &str) -> Option<String> {
